@@ -8,7 +8,7 @@ from harness.props.c01 import all_texts
 from harness.props import c03
 
 BRIDGE = ('Gemato.Bridge.Tree', 'Gemato.Bridge.SrcUpdate', 'Gemato.Bridge.SrcVerify', 'Gemato.Bridge.SrcLoader')
-PROPS = ['Gemato.Props.C10', 'Gemato.Props.C10b']
+PROPS = ['Gemato.Props.C10', 'Gemato.Props.C10b', 'Gemato.Props.C10c']
 
 
 def manifest_lines(root):
